@@ -145,7 +145,18 @@ def behave(i, behaviour, received):
     return False
 
 
-def entry_objects(i, kind, behaviour, log, block_ref):
+def cb_args(style, i):
+    """(args, kwargs) a callback is registered with: everything, nothing at all, positional only, keyword only"""
+    if style == "bare":
+        return (), {}
+    if style == "pos":
+        return ("arg", i), {}
+    if style == "kw":
+        return (), dict(CB_KW, kw=i)
+    return ("arg", i), dict(CB_KW, kw=i)
+
+
+def entry_objects(i, kind, behaviour, log, block_ref, cb_style="full"):
     """(thing to register on the stack, equivalent context manager for the nested reference)"""
 
     def record(received):
@@ -239,10 +250,11 @@ def entry_objects(i, kind, behaviour, log, block_ref):
             return None
 
         async def __aexit__(self, et, ev, tb):
+            args, kwargs = cb_args(cb_style, i)
             if self.is_async:
-                await self.fn("arg", i, kw=i, **CB_KW)
+                await self.fn(*args, **kwargs)
             else:
-                self.fn("arg", i, kw=i, **CB_KW)
+                self.fn(*args, **kwargs)
             return False
 
     if kind == "acm":
@@ -283,7 +295,7 @@ def _objects(case, log, block_ref):
         if k.endswith("+same") and prev is not None:
             out.append(prev)
         else:
-            out.append(entry_objects(i, base, b, log, block_ref))
+            out.append(entry_objects(i, base, b, log, block_ref, case.get("cb_style", "full")))
     return out
 
 
@@ -301,8 +313,8 @@ async def run_stack(case, log):
                     if returned is not thing:
                         log.append(("push-did-not-return-its-argument",))
                 else:
-                    returned = stack.callback(thing, "arg", things.index((how, thing)), kw=things.index((how, thing)),
-                                              **CB_KW)
+                    args, kwargs = cb_args(case.get("cb_style", "full"), things.index((how, thing)))
+                    returned = stack.callback(thing, *args, **kwargs)
                     if returned is not thing:
                         log.append(("callback-did-not-return-its-argument",))
             log.append(("block",))
@@ -396,6 +408,8 @@ def small_programs():
         for entries in itertools.product(space, repeat=n):
             for block in ("normal", "raises"):
                 out.append({"entries": [list(e) for e in entries], "block": block})
+                if any(k.startswith("callback") for k, _ in entries):
+                    out.append({"entries": [list(e) for e in entries], "block": block, "cb_style": "bare"})
     return out
 
 
@@ -409,7 +423,8 @@ def programs(draw, lo, hi):
         src = entries[draw(st.integers(0, j - 1))]
         if src[1] not in ("enter-fails", "enter-fails-attr"):
             entries[j] = [src[0].replace("+same", "") + "+same", src[1]]
-    return {"entries": entries, "block": draw(st.sampled_from(["normal", "raises"]))}
+    return {"entries": entries, "block": draw(st.sampled_from(["normal", "raises"])),
+            "cb_style": draw(st.sampled_from(["full", "bare", "bare", "pos", "kw"]))}
 
 
 def program_nontrivial(case):
